@@ -105,6 +105,12 @@ def rule_D1(ctx) -> None:
                 for e in p.events:
                     if e.kind == "store" and e.data[0] == ("sub", A(SELF, "__dict__"), C("_serialized_on_wire")):
                         considered_set.add(e.data[1])
+            selected = any(e.kind == "store" and e.data[0][0] == "sub" and e.data[1] == FIELD_NAME and e.loops for p in paths for e in p.events)
+            if considered_set == {C(False)} and selected:
+                ctx.refuted("D1", f"__post_init__[optional={opt}]:selection-iff-set", f"selects-on-{cand}", mod.loc(pi),
+                            f"__post_init__ records a oneof member as the selected one although its raw value {cand} counts as 'not passed' (optional={opt}): with members declared optional=True "
+                            "(the pydantic mode) the last declared member always wins the group and the member really passed becomes unreadable",
+                            "M(a=1) where a, b are optional=True members of one group: which_one_of gives b")
             if considered_set == {C(False)}:
                 unset.add(cand)
             elif considered_set != {C(True)}:
